@@ -549,11 +549,21 @@ def register(reg):
       "TwoWayMap op sequences over all 25 bin pairs and make_sort_spec are diffed directly; the engine's scheduling "
       "(that every changed row is delivered; the ordering assumption, checked on every real stream) and the key type "
       "conversion are not modelled. Direct oracle: naive filter+sort per the property text on every probe formula cell "
-      "after every bundle, naive recomputation of every real index and cache.",
+      "after every bundle, naive recomputation of every real index and cache. Lookups with MIXED key kinds - CONTAINS on "
+      "ChoiceList / RefList / Any-list / Any-formula-list columns combined with equality keys on Ref / Int / Text / Bool / "
+      "Choice columns in one lookupRecords / lookupOne call (1-3 keys, keys given as Records, row ids and plain values, "
+      "list cells empty / None / alt text / with duplicates / holding Records and row ids mixed) and the edits that move a "
+      "row between such keys - are covered by the direct oracle and tied to the same event machine (whose kinds list "
+      "mixes exact and CONTAINS columns); lookup._extract (Record -> row id on the index side and the key side) is NOT "
+      "modelled - the harness canonicalises Records to row ids before the model sees them - so an index that stores Record "
+      "objects instead of row ids is caught by the direct oracle / naive index recomputation only.",
       "sort values of returned rows mutually comparable (else only the row set is demanded); keys not NaN, exact keys "
       "hashable; model universe None/bool/int/float/str/AltText + lists (key cells), None/bool/int/str (sort cells; "
       "manualSort positions scaled by 2^80); 0/False in a CONTAINS(match_empty) column accepted either way; key type "
-      "conversion taken from the real tree; T <= ~8 rows, 14 of 22 probe formulas per history; one recorded finding "
+      "conversion taken from the real tree; T <= ~8 rows, 14 of 22 probe formulas per history; mixed-key stream: 6 (quick) "
+      "/ 280 (thorough) random histories with 8 fixed + 8 generated combined probes, every ordered pair of (Ref key, list "
+      "cell) states of one row (12x12 quick, 24x24 x 3 thorough), one scripted witness; a Record counts as its row id; "
+      "`.id` of a reference to a removed row is 0; one recorded finding "
       "(stale stored lookup after a type change of the key column of an EMPTY table, known_findings.json).",
       "Lean 4 theorems (bin-type contract + relational invariant of TwoWayMap; event-machine invariant with ghost dirty "
       "sets; uniqueness of the sorted permutation) + differential correspondence on instrumented live objects + direct oracle")
